@@ -23,7 +23,7 @@ fn ref_week_from(ordinal: u32, wd: u32, start: u32) -> u32 {
     if ordinal > since { (ordinal - since - 1) / 7 + 1 } else { 0 }
 }
 
-// @ob tier=thorough timeout=5400 mem=14
+// @ob tier=extra timeout=7200 mem=16
 // @desc to_naive_date over ALL subsets of the 14 date fields with arbitrary values: a successful result agrees with every supplied field (year, century, two-digit year, ISO year and its parts, quarter, month, both week numberings, ISO week, weekday, ordinal, day) as computed by the independent reference calendar
 // @bounds every Option field symbolic (presence and full-width value): 2^14 subsets x all values; reference month scan unwound 13
 // @funcs Parsed::to_naive_date (resolve_year, verify_ymd, verify_isoweekdate, verify_ordinal, resolve_week_date, quarter check), NaiveDate::weeks_from
